@@ -94,3 +94,54 @@ Example C05_nonvacuous :
   forallb (fun k => is_ok (fstep (frun (init_farm 1000000 false) (firstn k c05_example)) (nth k c05_example (FTopUp 1))))
           (seq 0 12) = true.
 Proof. vm_compute. repeat split. Qed.
+
+(** ==================================================================================================
+    The same property for the STAKING farm (farm-staking), on the position-level model Model/StakingPos.v:
+    positions with attributes {reward_per_share, compounded_reward, current_farm_amount, original_owner}, who
+    holds how much of which nonce, per-user totals; accrual (APR bound, capacity), reward payment, unbond
+    tokens and admin endpoints are those of Model/Staking.v; the boosted payout [b] is an input bounded by
+    the boosted pools.  [preach dsc apr minub ops]: the state after ANY list of operations from deployment.
+    [pvalid_op]: account ids in range.  [sep_op]: additionally the whitelisted proxy keeps its positions to
+    itself and users do not call the proxy endpoints (needed only where the VIRTUAL principal is compared
+    with the supply).  From here on the names settle, pay, utot, ... are those of the staking models. *)
+From MX Require Import Model.Staking Model.StakingPos Proofs.StakingProofs Proofs.StakingPosProofs.
+
+(** every successful operation of any caller preserves the invariant (C12 invariant of the money-flow part,
+    ledger, attributes, supply = sum, reserve = accrued - paid, solvency, owner totals) *)
+Theorem C05_staking_step : forall sp op sp' o, pstep sp op = Ok (sp', o) -> Inv sp -> pvalid_op op -> Inv sp'.
+Proof. exact pstep_inv. Qed.
+Print Assumptions C05_staking_step.
+
+(** S-C05a reserve = accrued - paid;  S-C05b the reserve, net of all unclaimed boosted pools, covers the base
+    rewards claimable by all live holdings - un-floored (scaled by DSC) and in the floor form of the property
+    text: reserve >= sum_i floor(amount_i * (rps - rps_i) / DSC) + pools;  accrued never exceeds the capacity *)
+Theorem C05_staking_ab_accounting : forall dsc apr minub ops, 0 < dsc -> 0 < apr -> Forall pvalid_op ops ->
+  let sp := preach dsc apr minub ops in
+  s_reserve (p_s sp) = s_acc (p_s sp) - p_paid sp /\
+  sclaimable sp <= s_dsc (p_s sp) * (s_reserve (p_s sp) - s_pool (p_s sp)) /\ 0 <= sclaimable sp /\
+  sclaimable_floor sp + s_pool (p_s sp) <= s_reserve (p_s sp) /\ 0 <= sclaimable_floor sp /\
+  0 <= s_pool (p_s sp) <= s_reserve (p_s sp) /\
+  s_acc (p_s sp) <= s_cap (p_s sp).
+Proof. exact sc05_accounting. Qed.
+Print Assumptions C05_staking_ab_accounting.
+
+(** S-C05c principal backed (the C12 identity, now with the virtual principal pinned down): the staking tokens
+    the contract really holds = principal of all non-virtual positions + outstanding unbond tokens + un-accrued
+    capacity + reserve + donations, every term non-negative; the virtual principal is exactly what the proxy holds *)
+Theorem C05_staking_c_principal_backed : forall dsc apr minub ops, 0 < dsc -> 0 < apr -> Forall sep_op ops ->
+  let sp := preach dsc apr minub ops in let s := p_s sp in
+  s_bal s = (s_supply s - s_virt s) + s_ubtot s + (s_cap s - s_acc s) + s_reserve s + s_don s /\
+  0 <= s_virt s <= s_supply s /\ s_virt s = proxy_held sp /\ 0 <= s_ubtot s /\ 0 <= s_cap s - s_acc s /\ 0 <= s_reserve s /\ 0 <= s_don s /\
+  (s_supply s - s_virt s) + s_ubtot s + s_reserve s <= s_bal s.
+Proof. exact sc05c_principal_backed. Qed.
+Print Assumptions C05_staking_c_principal_backed.
+
+(** S-C05d: in a reachable state no stake / claim / compound / unstake / merge (by a user, or by the proxy for an
+    original caller) fails unless a documented guard fails: contract not active, caller not authorised, zero
+    amount, the caller does not hold what he pays in, or the boosted payout exceeds the boosted pools (the boosted
+    module's own guard).  In particular no reserve / supply / user-total / balance counter can go negative. *)
+Theorem C05_staking_d_no_spurious_failure : forall dsc apr minub ops op, 0 < dsc -> 0 < apr -> Forall sep_op ops ->
+  let sp := preach dsc apr minub ops in
+  pvalid_op op -> guards sp op -> exists r, pstep sp op = Ok r.
+Proof. exact sc05d_no_spurious_failure. Qed.
+Print Assumptions C05_staking_d_no_spurious_failure.
